@@ -112,6 +112,9 @@ def _c01(tier, seed):
         for k in range(34):      # MTProto service objects
             for pat in (0, 1):
                 runs.append("H_C01_class(2,%d,%d,1,0)" % (k, pat))
+        for k in range(70):      # greedy cover of the distinct field shapes
+            for pat in (0, 1, 2, 3):
+                runs.append("H_C01_class(4,%d,%d,1,0)" % (k, pat))
         for idx in _sample(seed, N_STRUCTS, 100):
             for pat in (0, 1, 2, 3):
                 runs.append("H_C01_rt(%d,%d,1,0)" % (idx, pat))
@@ -153,6 +156,9 @@ def _c02(tier, seed):
         for k in range(34):
             for pat in (0, 1):
                 runs.append("H_C02_class(2,%d,%d,1,0)" % (k, pat))
+        for k in range(70):
+            for pat in (0, 1, 2, 3):
+                runs.append("H_C02_class(4,%d,%d,1,0)" % (k, pat))
         for idx in _sample(seed + 1, N_STRUCTS, 120):
             for pat in (0, 1, 2, 3):
                 runs.append("H_C02_wire(%d,%d,1,0)" % (idx, pat))
@@ -178,8 +184,11 @@ def _c13(tier, seed):
     for idx in (_sample(seed + 2, N_STRUCTS, 80) if q else range(N_STRUCTS)):
         wire.append("H_C02_wire(%d,1,1,0)" % idx)
         wire.append("H_C02_wire(%d,0,1,0)" % idx)
+    methods = ["H_C13_method(%d)" % k for k in range(460)]
     return [dict(name="schema", pkg="telegram", harness=TL2_HARNESS, pre=_gen_schema, overlay=TL_OVERLAY, native_overlay=TL_OVERLAY, runs=runs + wire, solver="z3", walllimit=120, timeout=3000,
-                 validate_runs=["H_C13_wrappers()", "H_C13_def(5)", "H_C13_def(900)"])]
+                 validate_runs=["H_C13_wrappers()", "H_C13_def(5)", "H_C13_def(900)"]),
+            dict(name="methods", pkg="telegram", harness=TL2_HARNESS + ["harness/telegram/c13m.go"], pre=_gen_schema, overlay=TL_OVERLAY, native_overlay=TL_OVERLAY, runs=methods, solver="z3", walllimit=120, timeout=3000,
+                 replay=False, validate=False, noreplay_reason="MakeRequest/MakeRequestWithHintToDecoder are intercepted inside the engine (verifrt.Hook); natively they would need a live transport")]
 
 TL3_HARNESS = TL2_HARNESS + ["harness/telegram/c15.go"]
 N_IDS = 1240
@@ -309,14 +318,14 @@ PROPS = {
     ),
     "C13": dict(
         jobs=_c13,
-        bounds={"quick": "all 1236 schema definitions (ground obligations: registered, CRC() = schema id = crc32(canonical line), field order/kind/flag bit/flags position); registry subset of schema; the 3 hand-written wrappers; byte-level agreement (C02 harness) for 80 seed-chosen constructors",
+        bounds={"quick": "all 1236 schema definitions (ground obligations: registered, CRC() = schema id = crc32(canonical line), field order/kind/flag bit/flags position); registry subset of schema; the 3 hand-written wrappers; byte-level agreement (C02 harness) for 80 seed-chosen constructors; all exported *Client methods: the 343 generated ones called with symbolic distinguishable arguments (request constructor = schema function id, argument i in parameter position i, decoder hint iff vector result, answer handed back unchanged)",
                 "thorough": "byte-level agreement for all constructors"},
-        outside="generated client methods end to end (argument positions and result kinds of the 343 methods): not encoded yet; a live server",
+        outside="a live server (client methods are driven with the transport entry points hooked inside the engine; such counterexamples are not replayable natively)",
         assumptions=["canonical-line rule as used by Telegram's own tooling (drop #id, flags.N?true parameters, bytes->string, <> and {} removed)", "msg_container's id is assigned rather than derived (documented exception)"],
     ),
     "C01": dict(
         jobs=_c01,
-        bounds={"quick": "all enum members; every constructor with a shared flag bit x presence patterns {none, all, only-j, all-but-j}; all MTProto service objects; 100 seed-chosen constructors x patterns {none, all, only first, only second}; leaves symbolic (int/long/double bits, bool, strings and byte strings of length 0..4, vectors of 0..2, int128/int256 with 0..2 leading zero bytes), nested objects depth 1 with the smallest implementer; strings: every length 0..9, 250..258, 65534..65537 (PutMessage/PopMessage kernels), 2^24 and 2^24+1",
+        bounds={"quick": "all enum members; every constructor with a shared flag bit x presence patterns {none, all, only-j, all-but-j}; all MTProto service objects; a greedy cover of the distinct field shapes (two constructors per combination of kind/element/conditional/bit-stored/shared) x 4 patterns; 100 seed-chosen constructors x patterns {none, all, only first, only second}; leaves symbolic (int/long/double bits, bool, strings and byte strings of length 0..4, vectors of 0..2, int128/int256 with 0..2 leading zero bytes), nested objects depth 1 with the smallest implementer; strings: every length 0..9, 250..258, 65534..65537 (PutMessage/PopMessage kernels), 2^24 and 2^24+1",
                 "thorough": "all registered constructors x all single-member patterns, depth 2 with 3 implementer variants; every string length 0..279, 2^24-4..2^24+5"},
         outside="strings longer than 4 inside a full constructor (covered through the string kernels), nesting deeper than 2, vectors longer than 2, presence patterns that differ from none/all in more than one field, msg_container / gzip_packed (hand-written codecs: C15/C09), exact-consumption of trailing bytes",
         assumptions=["reflect is modelled by the engine (validated against native reflect on the differential vectors)", "math/big.Int modelled as bit-vectors; Bytes() explored for 0..2 leading zero bytes"],
